@@ -9,7 +9,7 @@ git -C /repo worktree add -q --detach $wt HEAD || exit 3
 trap 'git -C /repo worktree remove --force '$wt EXIT
 for id in $ids; do
   git -C $wt checkout -q -- . ; git -C $wt clean -fdq
-  if ! git -C $wt apply "$PWD/refactors/$id/patch.diff" 2>/dev/null; then echo "$id patch-no-longer-applies"; continue; fi
+  if ! git -C $wt apply "$PWD/refactors/$id/patch.diff" 2>/dev/null && ! git -C $wt apply --3way "$PWD/refactors/$id/patch.diff" 2>/dev/null; then echo "$id patch-no-longer-applies"; continue; fi
   out=$(VERIF_REPO=$wt ./check ${id:0:3} --tier quick --no-sentinels 2>&1); rc=$?
   echo "$id exit=$rc $(python3 -c "import json;c=json.load(open('evidence/${id:0:3}.json'))['coverage'];print(len(c.get('unbound_contracts',[])),'unbound',len(c.get('degraded_tasks',[])),'degraded')") $(echo "$out" | grep -c '^FRAME-NOTE') frame-notes $(echo "$out" | grep '^C.. tier' | cut -c1-120)"
   [ $rc -ne 0 ] && echo "$out" | grep '^VIOLATION\|^UNDECIDED\|^ENGINE\|^CHECKER\|^VACUITY' | cut -c1-260 | head -8
